@@ -64,9 +64,18 @@ fn needs_quote(id: &str) -> bool {
     !is_valid_as_id(id) || is_keyword(id)
 }
 
+/// `escape_debug`, except that NUL is spelled `\u{0}`: the Candid lexer has no `\0` escape,
+/// and `\0` followed by a hex digit would be read as a `\xx` byte escape.
+pub(crate) fn escape_text(s: &str) -> String {
+    s.split('\0')
+        .map(|part| part.escape_debug().to_string())
+        .collect::<Vec<_>>()
+        .join("\\u{0}")
+}
+
 fn ident_string(id: &str) -> String {
     if needs_quote(id) {
-        format!("\"{}\"", id.escape_debug())
+        format!("\"{}\"", escape_text(id))
     } else {
         id.to_string()
     }
@@ -493,7 +502,7 @@ pub mod value {
                 Int64(n) => write!(f, "{} : int64", pp_num_str(&n.to_string())),
                 Float32(_) => write!(f, "{} : float32", number_to_string(self)),
                 Float64(_) => write!(f, "{} : float64", number_to_string(self)),
-                Text(s) => write!(f, "{s:?}"),
+                Text(s) => write!(f, "\"{}\"", super::escape_text(s)),
                 None => write!(f, "null"),
                 Reserved => write!(f, "null : reserved"),
                 Principal(id) => write!(f, "principal \"{id}\""),
@@ -612,7 +621,7 @@ pub mod value {
             return RcDoc::as_string(format!("{v:?}"));
         }
         match v {
-            Text(ref s) => RcDoc::as_string(format!("\"{}\"", s.escape_debug())),
+            Text(ref s) => RcDoc::as_string(format!("\"{}\"", super::escape_text(s))),
             Opt(v) if has_type_annotation(v) => {
                 kwd("opt").append(enclose("(", pp_value(depth - 1, v), ")"))
             }
